@@ -102,8 +102,8 @@ func C09guards(p *load.Program, run *report.Run) {
 		// the pass touches XOR gates only
 		onlyXor := false
 		ast.Inspect(fd.Body, func(x ast.Node) bool {
-			if ifs, ok := x.(*ast.IfStmt); ok && isOpNeq(ifs.Cond, "XOR") && len(ifs.Body.List) == 1 {
-				if b, ok := ifs.Body.List[0].(*ast.BranchStmt); ok && b.Tok == token.CONTINUE {
+			if ifs, ok := x.(*ast.IfStmt); ok && isOpNeq(ifs.Cond, "XOR") && len(effectiveQ(pkg.TypesInfo, ifs.Body.List)) == 1 {
+				if b, ok := effectiveQ(pkg.TypesInfo, ifs.Body.List)[0].(*ast.BranchStmt); ok && b.Tok == token.CONTINUE {
 					onlyXor = true
 				}
 			}
@@ -169,8 +169,8 @@ func C09guards(p *load.Program, run *report.Run) {
 					return true
 				}
 				cond, ok := ifs.Cond.(*ast.BinaryExpr)
-				if ok && cond.Op == token.NEQ && strings.HasSuffix(types.ExprString(cond.X), ".Level") && strings.HasSuffix(types.ExprString(cond.Y), ".Level") && len(ifs.Body.List) == 1 {
-					if r, ok := ifs.Body.List[0].(*ast.ReturnStmt); ok && len(r.Results) == 1 {
+				if ok && cond.Op == token.NEQ && strings.HasSuffix(types.ExprString(cond.X), ".Level") && strings.HasSuffix(types.ExprString(cond.Y), ".Level") && len(effectiveQ(pkg.TypesInfo, ifs.Body.List)) == 1 {
+					if r, ok := effectiveQ(pkg.TypesInfo, ifs.Body.List)[0].(*ast.ReturnStmt); ok && len(r.Results) == 1 {
 						if lt, ok := r.Results[0].(*ast.BinaryExpr); ok && lt.Op == token.LSS &&
 							types.ExprString(lt.X) == types.ExprString(cond.X) && types.ExprString(lt.Y) == types.ExprString(cond.Y) {
 							okSort = true
